@@ -24,7 +24,7 @@ func init() {
 			{ID: "C07.a", Title: "POOL-LOCK", Template: "T3", MinInst: 8,
 				Rule: "Log.currentPool, inSequencing, cacheRead, cacheLegacy are accessed only with the same Log's poolMu held (helpers: at every call site)",
 				Run: func(c *Ctx) {
-					c.checkLockDiscipline(Protected{pkgCtlog, "Log", "poolMu", []string{"currentPool", "inSequencing", "cacheRead", "cacheLegacy"}},
+					c.checkLockDiscipline(Protected{Pkg: pkgCtlog, Type: "Log", Mutex: "poolMu", Fields: []string{"currentPool", "inSequencing", "cacheRead", "cacheLegacy"}},
 						[]lockException{{"ctlog.(*Log).CloseCache", "cacheRead", "shutdown path: called once by the command after the sequencer and server stopped"}}, false)
 				}},
 			{ID: "C07.b", Title: "ATOMIC-ROTATION", Template: "T1+T3", MinInst: 2,
